@@ -111,7 +111,7 @@ def chunk_local_index(o):
     o.track(rec)
     ps = o.paths(lambda: o.I.call(o.method(rec, 'chunk_local_index'), [SV(g, kind='scalar')]))
     rets = [p for p in ps if p.kind == 'return']
-    assert len(rets) == 1, [(p.kind, getattr(p.exc, 'lineno', None)) for p in ps]
+    o.shape('chunk_local_index has exactly one returning path', len(rets) == 1, [(p.kind, getattr(p.exc, 'lineno', None)) for p in ps])
     p = rets[0]
     o.take_side_obligations(p, 'chunk_local_index')
     j, l = p.result
